@@ -67,12 +67,13 @@ PROPS = {
         explanation='caller-side prefix bindings and name-test comparison: Context::add_ns makes the prefix resolve to the new URI and leaves every other prefix alone (re-binding replaces), remove_ns unbinds exactly that prefix, get_ns_uri answers the first binding, expanded_name resolves a prefixed QName through the bindings (NotFoundNamespace when unbound) and gives an unprefixed one the default binding, equal_qname compares local part and URI and never the prefix; a lemma shows that renaming prefixes injectively in bindings and QName alike leaves every resolution unchanged; document side at the information-set level (unit c10_scope, specification written from Namespaces in XML: nearest enclosing declaration, empty value un-declares, xml bound at the document): XmlElement::namespaces lists the own declarations, in_scope_namespace returns exactly one item per key that resolves with the resolved URI (sound, complete, no key twice; induction through the recursive call on the parent), find_nameapce_uri(prefix) and the element namespace_name() answer resolve(element, prefix or "xmlns"), XmlAttribute::namespace_name() is None for an unprefixed attribute and resolves a prefix in the scope of the owner element',
     ),
     'C15': dict(
-        standin_ops=['info.text.insert', 'info.comment.insert', 'info.cdata.insert', 'dom.text.insert_data', 'dom.text.append_data', 'dom.comment.insert_data', 'dom.comment.append_data', 'dom.cdata.insert_data', 'dom.cdata.append_data'],
+        quick_grids=['dom.edit_roundtrip1'],
+        standin_ops=['dom.edit_roundtrip', 'info.text.insert', 'info.comment.insert', 'info.cdata.insert', 'dom.text.insert_data', 'dom.text.append_data', 'dom.comment.insert_data', 'dom.comment.append_data', 'dom.cdata.insert_data', 'dom.cdata.append_data'],
         verus_units=['c16_chardata'],
         level='proof',
         trusted_base=TRUSTED_VERUS,
         assumptions=[A1, A2, A3 + ' -- for C15 the assumption is the strong form: each checker DECIDES production [14] CharData / [15] Comment / [20] CData for its argument', A4, A6, A8],
-        not_decided='"the serialization is accepted by the parser" itself (nom); PI targets and data, element and attribute names, attribute values (validated only through nom: set_content, set_values, empty); the factories create_text_node/create_comment/create_cdata_section (live document); adjacency effects between sibling nodes after split_text',
+        not_decided='as PROOFS: "the serialization is accepted by the parser" itself (nom); PI targets and data, element and attribute names, attribute values (validated only through nom: set_content, set_values, empty); the factories (live document); adjacency between sibling nodes. Bounded and labelled so: dom.edit_roundtrip (thorough; its single-call part in the quick tier) applies the data-editing and creating calls of the DOM (insert / append / set / replace / delete / split on text, comment and CDATA; PI data; attribute value; set_attribute with a new name or value; create_text_node / comment / cdata / processing_instruction / element + append) with 19 argument strings over the markup-significant characters to one document, 483 single calls and 233 289 two-call histories: when every call reported success the serialization parses completely and denotes what the DOM reports (histories that end in data invalid on its own after a delete are left to the three recorded delete findings)',
         explanation='character data only: whenever insert/delete on a text, comment or CDATA information item reports success, the stored string is still lexically valid for its node kind (no ]]> in text or CDATA, no -- in a comment and no trailing -, no < or & in text, only XML Chars), also when the offending sequence arises only from joining the edit with the existing data',
     ),
     'C14': dict(
